@@ -15,6 +15,7 @@ import (
 	"path/filepath"
 	"strings"
 	"testing"
+	"time"
 
 	"github.com/gagliardetto/solana-go"
 	"github.com/ipfs/go-cid"
@@ -54,10 +55,20 @@ func TestVerif_C03(t *testing.T) {
 	rep.CountN("small epochs: CAR positions (offset, section length) shared by construction", steered)
 	mf := vfxDefaultSpec("c03mf", 4, seed+3) // a third of the transactions span several frames (no address index: its builder refuses split transaction data)
 	mf.NumSlots, mf.SkipPercent, mf.MaxEntries, mf.MaxTx, mf.FrameSize, mf.FanOut = 900, 10, 1, 3, 70, 3
-	truths, err := vfxBuild([]vfxSpec{big, s1, s3, mf})
+	// a fifth epoch with objects of very different sizes (c03held_test.go); it is not loaded next to the others
+	all, err := vfxBuild([]vfxSpec{big, s1, s3, mf, vc03LargeSpec(seed)})
+	var trLarge *vfxTruth
+	if len(all) == 5 {
+		trLarge = all[4]
+		if err != nil && all[0] != nil && all[1] != nil && all[2] != nil && all[3] != nil {
+			rep.Note("the large-object epoch was not built (its parts are skipped): %v", err)
+			err = nil // only the additional epoch failed
+		}
+	}
 	if err != nil {
 		t.Fatalf("setup failed: %v", err)
 	}
+	truths := all[:4]
 	for _, tr := range truths {
 		if tr.BuildErr != "" {
 			t.Fatalf("setup failed: fixture %s: %s", tr.Spec.Name, tr.BuildErr)
@@ -65,6 +76,16 @@ func TestVerif_C03(t *testing.T) {
 	}
 	trBig := truths[0]
 	ctx := context.Background()
+	// ---- what a fetch by CID returned stays the bytes stored under that CID (objects of 16 KiB .. 300 KiB among them)
+	t0 := time.Now()
+	vc03HeldLarge(rep, trLarge, seed)
+	rep.Flag("seconds_held_bytes_part", time.Since(t0).Seconds())
+	// ---- absent keys without any index entry, asked on long-lived readers between hits (c03xbucket_test.go)
+	t0 = time.Now()
+	vc03XSynthetic(rep, seed)
+	vc03XCidIndex(rep, trLarge, seed)
+	xaddr := vc03XAddrPairs(rep, trBig, seed)
+	rep.Flag("seconds_cross_bucket_index_part", time.Since(t0).Seconds())
 	pairs := &vc03Pairs{} // colliding (absent, stored) keys found below with one epoch loaded; replayed concurrently at the end
 	objAt := map[uint64]cid.Cid{}
 	for _, o := range trBig.Objects {
@@ -388,6 +409,8 @@ func TestVerif_C03(t *testing.T) {
 				}
 			}
 			rep.CountN(tag+" absent-addresses-colliding", collAddr)
+			// addresses without history AND without index entry, asked right after an indexed address (other bucket, same number)
+			vc03XAddrServer(rep, xaddr, tag, h, eps, trBig)
 		}
 		// ---- slot in an epoch that is not loaded
 		body, _, panicked, _ := vfxRPC(h, fmt.Sprintf(`{"jsonrpc":"2.0","id":1,"method":"getBlock","params":[%d]}`, uint64(77)*vfxEpochLen+5))
